@@ -5,6 +5,10 @@
                 refutes realistic defects (incl. the pinned tree's fixed super-triangle margin at a small scale)
   B1            the same run prints every input sequence; each is executed on the real code as the identity
                 and as scaled / offset exact copies
+  B1            DelaunayGen.tla - structured sets enumerated by TLC: rings / arcs of 8..64 nearly co-circular points
+                with a point inside (inserted last, first, in the middle: cavities of up to ~60 triangles), near-collinear
+                hull runs of 4..24 points at 1e-2..1e-5 of the extent, jittered grids; several insertion orders;
+                both entry points (BowyerWatson, ConstrainedBowyerWatson without constraints)
   B2            vh dt-random     - seeded sets (uniform, clustered, thin bands, flat arcs, diagonals) of up to
                 32 (quick) / 90 (thorough) points, identity or scaled by mul*2^k (|k| <= 40, mul odd) / offset by j*2^m
   executor      vh dt-exec       - real triangulation.BowyerWatson; mesh mapped back to the lattice
@@ -79,6 +83,49 @@ def design_checks(ctx):
     return [json.loads(x) for x in seqs]
 
 
+GEN_SHARDS = 12
+
+
+def structured_sets(ctx):
+    """B1, structured sets: DelaunayGen.tla (rings/arcs with an inner point, near-collinear hull runs, jittered grids;
+    a size ladder; the insertion order is part of the case) enumerated by TLC, sharded over GEN_SHARDS processes."""
+    def one(sh):
+        d = ctx.scratch("gen-%02d" % sh)
+        cfg = os.path.join(d, "Gen.cfg")
+        with open(cfg, "w") as f:
+            f.write("CONSTANTS\n  Seed = %d\n  Shard = %d\n  Shards = %d\n  Thorough = %s\n"
+                    "SPECIFICATION Spec\nINVARIANT Emit\nCHECK_DEADLOCK FALSE\n" %
+                    (ctx.seed, sh, GEN_SHARDS, "FALSE" if ctx.tier == "quick" else "TRUE"))
+        return core.run_tlc(d, "DelaunayGen", "Gen.cfg", files=[(cfg, "Gen.cfg")], workers=1, timeout=1500, heap="2g")
+
+    with ThreadPoolExecutor(max_workers=GEN_SHARDS) as ex:
+        results = list(ex.map(one, range(GEN_SHARDS)))
+    out = {}
+    for r in results:
+        if r.rc != 0:
+            raise core.Infra("DelaunayGen failed: %s" % (r.violated or r.out[-500:]))
+        ctx.add_tlc(r)
+        for v in r.values:
+            if isinstance(v, dict) and "gen" in v and len(v["pts"]) >= 3:
+                out[v["gen"]] = v
+    if not out:
+        raise core.Infra("DelaunayGen printed no cases")
+    cases = []
+    for g in sorted(out):
+        v = out[g]
+        c = {"tag": v["tag"], "pts": v["pts"], "k": v["k"], "j": v["j"], "m": v["m"], "mul": v["mul"],
+             "ax": v["ax"], "ay": v["ay"]}
+        if g % 2:
+            c["entry"] = "constrained"      # both entry points share the insertion code: alternate them
+        cases.append(c)
+    ctx.extra["structured_sets"] = {
+        "cases": len(cases), "max_points": max(len(c["pts"]) for c in cases),
+        "by_shape": {k: sum(1 for c in cases if c["tag"].startswith("gen-" + k)) for k in ("ring", "arc", "run", "grid")},
+        "inner_point_last": sum(1 for c in cases if c["tag"].endswith("last") and c["tag"][4:7] in ("rin", "arc")),
+    }
+    return cases
+
+
 # Exact copies used for the enumerated sequences: (name, k, j, m, mul) means x = (lat + j*2^m) * mul * 2^k.
 # Scales mul*2^k sweep 2^-13 .. 2^5 with about 1/16 relative spacing (constructions with an absolute constant
 # change behaviour in a narrow window of scales: the pinned tree's super-triangle failed for sets between 0.100
@@ -116,6 +163,10 @@ def transform_of(c):
     return "offset" if c["k"] == 0 else "scaled-offset"
 
 
+def entry_of(c):
+    return "ConstrainedBowyerWatson" if c.get("entry") == "constrained" else "BowyerWatson"
+
+
 def execute(ctx, vh, cases, name, par=1):
     d = ctx.scratch(name + "-exec")
     cp = os.path.join(d, "cases.ndjson")
@@ -127,7 +178,7 @@ def execute(ctx, vh, cases, name, par=1):
 
 
 def judge(ctx, raw, name):
-    findings, notes = [], {"notGP": 0, "empty": 0}
+    findings, notes = [], {"notGP": 0, "empty": 0, "stars": []}
     res = core.validate_sharded(ctx, name, "TraceDelaunay", "TraceDelaunay.cfg", raw, is_boundary=lambda ln: True,
                                 timeout=3000, heap="3g")
     for sh, r in res:
@@ -135,7 +186,9 @@ def judge(ctx, raw, name):
             if not isinstance(v, dict) or "l" not in v:
                 continue
             ln = json.loads(sh[v["l"] - 1])
-            if "note" in v:
+            if "star" in v:
+                notes["stars"].append(v["star"])
+            elif "note" in v:
                 notes[v["note"]] += 1
             elif "bad" in v:
                 for pred in v["bad"]:
@@ -149,32 +202,53 @@ def report(ctx, vh, cases, findings, confirm=True):
     picked, per_sig = [], {}
     for f in findings:
         c = by_id[f["case"]]
-        sig = "%s/BowyerWatson/%s" % (f["pred"], transform_of(c))
+        sig = "%s/%s/%s" % (f["pred"], entry_of(c), transform_of(c))
         if per_sig.get(sig, 0) >= 3:
             continue
         per_sig[sig] = per_sig.get(sig, 0) + 1
         picked.append((sig, f, c))
     if not picked:
         return
+    unreproduced = []
     if confirm:
-        # the algorithm iterates over Go maps: a rejection may depend on the iteration order, so a case is
-        # given several re-executions to show the same rejection again
-        again = []
+        # The algorithm iterates over Go maps: the OUTPUT for one input may differ between executions (measured on a
+        # seeded change: two different meshes for the same input, about 50:50), and then which consequent is
+        # rejected differs too. A finding is confirmed when a re-execution of its case is rejected again: with the
+        # same predicate, or else with another one (it is then reported under the predicate that was seen again).
+        # 12 re-executions first, 60 more for the cases not yet rejected again. A finding that never shows again
+        # is not a verdict: it is listed in the evidence and ends the run as an infrastructure failure AFTER the
+        # confirmed findings were reported (a confirmed verdict is not masked by an unconfirmed one).
+        pending = list(range(len(picked)))
+        seen_again = {n: set() for n in pending}
+        for stage, reps in enumerate((12, 60)):
+            if not pending:
+                break
+            again = []
+            for n in pending:
+                for rep in range(reps):
+                    again.append(dict(picked[n][2], id=n))
+            raw = execute(ctx, vh, again, "confirm%d" % stage)
+            for g in judge(ctx, raw, "confirm%d" % stage)[0]:
+                seen_again[g["case"]].add(g["pred"])
+            pending = [n for n in pending if not seen_again[n]]
+        confirmed = []
         for n, (sig, f, c) in enumerate(picked):
-            for rep in range(6):
-                cc = dict(c)
-                cc["id"] = n
-                again.append(cc)
-        raw = execute(ctx, vh, again, "confirm")
-        got = {(g["case"], g["pred"]) for g in judge(ctx, raw, "confirm")[0]}
-        for n, (sig, f, c) in enumerate(picked):
-            if (n, f["pred"]) not in got:
-                raise core.Infra("rejection %s of case %d does not reproduce in 6 re-executions" % (sig, f["case"]))
+            if f["pred"] in seen_again[n]:
+                confirmed.append((sig, f, c))
+            elif seen_again[n]:
+                pred = sorted(seen_again[n])[0]
+                confirmed.append(("%s/%s/%s" % (pred, entry_of(c), transform_of(c)), dict(f, pred=pred), c))
+            else:
+                unreproduced.append("%s of case %d" % (sig, f["case"]))
+        picked = confirmed
     for sig, f, c in picked:
         what = "%s rejected the triangulation of %d points (%s: scale %d*2^%d, offset %s*2^%d, stretch 2^%d:2^%d, tag %s): %d triangles returned" % (
             f["pred"], f["n"], transform_of(c), c.get("mul", 1), c["k"], c["j"], c["m"], c.get("ax", 0), c.get("ay", 0),
             c.get("tag"), f["tris"])
         ctx.violation(sig, what, {"family": "delaunay", "pred": f["pred"], "case": c})
+    if unreproduced:
+        ctx.extra["unreproduced_rejections"] = unreproduced
+        raise core.Infra("rejection %s does not reproduce in 72 re-executions" % "; ".join(unreproduced))
 
 
 PAR = 8
@@ -320,6 +394,7 @@ def run(ctx):
     ladder = core.read_ndjson(p)
     ctx.extra["aspect_ladder_cases"] = len(ladder)
     cases += ladder
+    cases += structured_sets(ctx)
     # spread the large seeded sets over the shards
     b1, b2 = cases[:nb1], cases[nb1:]
     random.Random(ctx.seed).shuffle(b2)
@@ -352,11 +427,18 @@ def run(ctx):
                      max_points=max(len(c["pts"]) for c in cases),
                      by_transform={k: sum(1 for c in cases if transform_of(c) == k)
                                    for k in ("identity", "scaled", "offset", "scaled-offset", "stretched")})
+    stars = sorted(notes["stars"])
+    # fan of d accepted triangles at the point inserted last = a cavity of d - 2 invalidated triangles (interior point)
+    ctx.extra["largest_fan_at_last_point"] = stars[-1] if stars else 0
+    ctx.extra["largest_cavity_reached"] = max(0, (stars[-1] if stars else 0) - 2)
+    ctx.extra["cases_with_cavity_over_21"] = sum(1 for d in stars if d - 2 > 21)
     if gp == 0 or nonempty + bad_cases < gp // 2:
         raise core.Infra("vacuous run: %d of %d general-position inputs gave an empty triangulation; the four consequents "
                          "are only exercised by non-empty results" % (notes["empty"], gp))
     if notes["notGP"] == 0:
         raise core.Infra("vacuous antecedent test: no input outside general position was seen")
+    if not findings and ctx.extra["cases_with_cavity_over_21"] == 0:
+        raise core.Infra("no accepted case reached a cavity of more than 21 triangles: the structured sets lost their reach")
     if not quick and not findings:
         selftest(ctx, raw)
     ctx.traces += total
